@@ -584,10 +584,31 @@ fn check_c18(src: &str, mut vd: Verdict) -> Verdict {
 
 fn check_c19(src: &str, mut vd: Verdict) -> Verdict {
     let (a, b) = (lex(Variant::Dbg, src), lex(Variant::Rel, src));
-    let (a, b) = match (a, b) {
-        (Lexed::Ok(a), Lexed::Ok(b)) if !a.verif.budget_exceeded && !b.verif.budget_exceeded && !a.errs.iter().chain(b.errs.iter()).any(|e| e.code >= 9000) => (a, b),
-        _ => {
-            vd.discard = Some("a build panicked, exceeded the budget or reported an internal error (C01 territory)");
+    // a build "returns a result" when it neither panics, nor exceeds the budget, nor reports an internal error
+    let good = |l: &Lexed| matches!(l, Lexed::Ok(d) if !d.verif.budget_exceeded && !d.errs.iter().any(|e| e.code >= 9000));
+    let describe = |l: &Lexed| match l {
+        Lexed::Panic(p) => format!("panics ({})", p.msg.lines().next().unwrap_or("")),
+        Lexed::Err(c) => format!("returns Err({c})"),
+        Lexed::Ok(d) if d.verif.budget_exceeded => "exceeds the iteration budget".to_string(),
+        Lexed::Ok(d) => match d.errs.iter().find(|e| e.code >= 9000) {
+            Some(e) => format!("reports internal error {:?}", e.k),
+            None => format!("returns {} tokens, {} errors", d.toks.len(), d.errs.len()),
+        },
+    };
+    let (a, b) = match (good(&a), good(&b)) {
+        (true, true) => match (a, b) {
+            (Lexed::Ok(a), Lexed::Ok(b)) => (a, b),
+            _ => unreachable!(),
+        },
+        (false, false) => {
+            vd.discard = Some("both builds panic, exceed the budget or report an internal error (C01 territory)");
+            return vd;
+        }
+        (ga, _) => {
+            // one build returns a clean result and the other does not: the outcome depends on the build profile
+            let which = if ga { "optimized-build-fails" } else { "debug-build-fails" };
+            vd.violations.push(Violation::new("C19", "debug-vs-release", format!("debug-vs-release:asymmetric:{which}"), format!("debug-assertion build {}; optimized build {}", describe(&a), describe(&b))));
+            vd.nontrivial = true;
             return vd;
         }
     };
